@@ -339,6 +339,14 @@ func (n *node[T]) checkAmbiguous(pattern string, hasNonString bool) (*node[T], b
 			if node != nil {
 				return node, hasNonString, nil
 			}
+		} else if seg.IsAmbiguousPrefix(s0) { // c 是某个参数节点被拆分之后的上半部分
+			node, hasNonString, err := c.checkAmbiguous(pattern[len(s0.Value)-len(s0.Suffix)+len(seg.Suffix):], true)
+			if err != nil {
+				return nil, false, err
+			}
+			if node != nil {
+				return node, hasNonString, nil
+			}
 		}
 	}
 
